@@ -55,8 +55,12 @@ Calibration (unchanged tree)
 * var/std/moment tolerance uses the eps of the less precise of (input dtype, result dtype): np.nanvar
   stores the deviations in the input precision (``out=arr``) even when ``dtype=float64`` is requested.
 * topk/argtopk with |k| > axis length and with NaN data are outside the domain (no NumPy reference).
-* var/std ddof > 2 not generated: for ddof > n NumPy's var divides by max(n - ddof, 0) (inf), dask gives NaN;
-  the statement's quantifier does not list ddof beyond the usual corrections.
+* var/std/moment are generated with ddof <= number of reduced elements (ddof in {0, 1, 2}): for ddof > n NumPy's
+  var divides by max(n - ddof, 0) and returns inf or NaN depending on rounding residue of the deviations, dask
+  returns NaN; a negative number of degrees of freedom is outside "ddof for var/std".  (nanvar/nanstd keep
+  ddof up to 2 whatever the NaN count: np.nanvar documents NaN for count <= ddof.)
+* arg-reductions: a result equal to NumPy's is accepted before the "index holds the extreme" facet is applied:
+  np.nanargmin([nan, inf]) returns 0 (NumPy substitutes +inf for NaN and takes the first), which dask reproduces.
 """
 from __future__ import annotations
 
@@ -198,7 +202,7 @@ def cases(tier, seed):
                         yield dict(base, op="argmin", axis=axis, keepdims=kd, ses=[2, None])
     # ---- random part ------------------------------------------------------------------------
     ops = RED + ARG + ARG + CUM + CUM + TOPK + TOPK + MED + QUANT
-    n = 5200 if tier == "quick" else 90000
+    n = 4400 if tier == "quick" else 110000
     for _ in range(n):
         op = rng.choice(ops)
         fam = family(op)
@@ -239,6 +243,11 @@ def cases(tier, seed):
             d["keepdims"] = rng.random() < 0.4
         if op in ("var", "std", "nanvar", "nanstd", "moment"):
             d["ddof"] = rng.choice((0, 0, 1, 1, 2))
+            if not op.startswith("nan"):
+                nred = 1
+                for a in red_axes:
+                    nred *= shape[a]
+                d["ddof"] = min(d["ddof"], nred)   # ddof > n: np.var divides by max(n - ddof, 0), see Calibration
         if op == "moment":
             d["order"] = rng.choice((0, 1, 1, 2, 3, 4))
         if (fam == "cum" or op in ("sum", "prod", "mean", "var", "std", "nansum", "nanprod", "nanmean", "nanvar", "nanstd")) \
@@ -277,6 +286,11 @@ def cases(tier, seed):
 
 # --------------------------------------------------------------------------- data
 def _data(case):
+    a = _data0(case)
+    return _finite(a) if case.get("_finite") else a
+
+
+def _data0(case):
     shape, dtype, flav = tuple(case["shape"]), case["dtype"], case["flavour"]
     seed = case["seed"]
     r = np.random.default_rng(seed + 77)
@@ -311,6 +325,14 @@ def _data(case):
     return a
 
 
+def _finite(a):
+    if a.dtype.kind in "fc":
+        return np.where(np.isfinite(a), a, a.dtype.type(1))
+    if a.dtype.kind in "Mm":
+        return np.where(np.isnat(a), a.dtype.type(0, "ns"), a)
+    return a
+
+
 def _se(desc):
     if isinstance(desc, list):
         return {int(k): int(v) for k, v in desc}
@@ -342,8 +364,42 @@ def _axis_kind(axis):
     return "axis=()" if len(axis) == 0 else "axis=tuple"
 
 
-def _feat(case, x, symptom):
+def _arg_feat(case, x):
+    axis = _axis(case.get("axis"))
+    f = [_axis_kind(axis)]
+    if x.ndim > 1 and axis is None:
+        f.append("ndim>1")
     op = case["op"]
+    if op.startswith("nanarg") and x.dtype.kind == "f" and np.isnan(x).any():
+        # a lane whose only non-NaN values are the infinity that NumPy substitutes for NaN
+        with warnings.catch_warnings():
+            warnings.simplefilter("ignore")
+            ax = None if axis is None else axis
+            ext = np.nanmin(x, axis=ax) if op == "nanargmin" else np.nanmax(x, axis=ax)
+            hasnan = np.isnan(x).any(axis=ax)
+            if np.any((np.isposinf(ext) if op == "nanargmin" else np.isneginf(ext)) & hasnan):
+                f.append("nan&lane-extreme-is-inf")
+    return f
+
+
+def _nonfinite_matters(case, symptom):
+    """Classifier helper (causal minimisation): does the symptom disappear when every NaN/inf/NaT of the
+    input is replaced by a finite value?  Only then is `nonfinite` part of the label."""
+    from ..core.ctx import Ctx
+
+    c2 = dict(case, _finite=True)
+    sub = Ctx(c2)
+    try:
+        run_case(c2, sub, _classify=False)
+    except Exception:  # noqa: BLE001
+        return True
+    return not any(v["label"].endswith(":" + symptom) for v in sub.violations)
+
+
+def _feat(case, x, symptom, classify=True):
+    op = case["op"]
+    if family(op) == "arg":
+        return "&".join(_arg_feat(case, x))
     f = []
     if op == "moment" and case.get("order", 2) < 2:
         f.append("order<2")
@@ -363,14 +419,15 @@ def _feat(case, x, symptom):
         if family(op) == "quant":
             f.append("q-vector" if isinstance(case["q"], list) else "q-python-scalar")
     else:
-        if x.dtype.kind in "cMm":
+        if x.dtype.kind in "Mm":
             f.append("kind=" + _kind(x))
-        if _nonfinite(x):
+        le_ddof = "ddof" in case and _count_le_ddof(case, x)
+        if le_ddof:
+            f.append("count<=ddof")   # the precise predicate; NaN content only matters through the count
+        elif _nonfinite(x) and (not classify or _nonfinite_matters(case, symptom)):
             f.append("nonfinite")
         if family(op) == "topk" and abs(case["k"]) == x.shape[case["axis"]]:
             f.append("|k|==n")
-        if "ddof" in case and _count_le_ddof(case, x):
-            f.append("count<=ddof")
         if family(op) == "cum":
             f.append(case["method"])
             if case.get("dtype_arg"):
@@ -390,12 +447,14 @@ def _count_le_ddof(case, x):
 
 def _exc_prefix(case, x):
     op = case["op"]
+    if family(op) == "arg":
+        return "arg-reduction:" + "&".join(_arg_feat(case, x))
     f = []
     if x.ndim == 0:
         f.append("0-d")
     if isinstance(case.get("axis"), list) and len(case["axis"]) == 0:
         f.append("axis=()")
-    if x.dtype.kind in "cMm":
+    if x.dtype.kind in "Mm":
         f.append("kind=" + _kind(x))
     if op == "moment" and case.get("order", 2) < 2:
         f.append("order<2")
@@ -475,7 +534,7 @@ def _cmp_std(r, e, scale, tol):
 
 
 # --------------------------------------------------------------------------- run
-def run_case(case, ctx):
+def run_case(case, ctx, _classify=True):
     import dask.array as da
 
     op = case["op"]
@@ -590,11 +649,13 @@ def run_case(case, ctx):
                                extreme if fam == "arg" else None)
                 if m:
                     bad = True
-                    lab_op, feat = op, (m[2] if len(m) > 2 else _feat(case, x, m[0]))
-                    if op in STDLIKE and m[0] == "values" and _var_also_differs(case, op, dx, x, se, kw, nred, scale):
+                    lab_op, feat = op, (m[2] if len(m) > 2 else _feat(case, x, m[0], _classify))
+                    if fam == "arg":
+                        lab_op = "arg-reduction"   # the four functions share arg_reduction/arg_chunk/_arg_combine
+                    elif not _classify:
+                        pass
+                    elif op in STDLIKE and m[0] == "values" and _var_also_differs(case, op, dx, x, se, kw, nred, scale):
                         lab_op = op.replace("std", "var")   # std = sqrt(var): the mechanism is in var
-                    elif m[0] == "tie-break-differs":
-                        lab_op = "arg-reduction"   # the four functions share arg_reduction/_arg_combine
                     elif fam == "cum" and case["method"] == "blelloch" and m[0] == "values" \
                             and _sequential_agrees(case, op, dx, e, axis, kw, nred, scale):
                         lab_op = "blelloch-scan"   # specific to prefixscan_blelloch, shared by the four scans
@@ -607,14 +668,16 @@ def run_case(case, ctx):
                     lm = None   # NumPy's quantile result dtype is value dependent (NaN content): see Calibration
                 if lm:
                     bad = True
-                    ctx.violation("%s:%s:%s" % (op, _feat(case, x, lm[0]), lm[0]), lm[1], split_every=repr(se))
+                    ctx.violation("%s:%s:%s" % ("arg-reduction" if fam == "arg" else op, _feat(case, x, lm[0]), lm[0]),
+                                  lm[1], split_every=repr(se))
             # ---- the result does not depend on split_every ------------------------------------------
             if len(results) == 2 and not bad:
                 ctx.count("split_every_pairs")
                 (s1, _, v1), (s2, _, v2) = results
                 m = _pair(op, fam, case, v1, v2, nred, scale)
                 if m:
-                    ctx.violation("%s:%s:split_every-dependent-%s" % (op, _feat(case, x, m[0]), m[0]), m[1],
+                    ctx.violation("%s:%s:split_every-dependent-%s" % ("arg-reduction" if fam == "arg" else op,
+                                                                     _feat(case, x, m[0], _classify), m[0]), m[1],
                                   split_every=[repr(s1), repr(s2)])
     rv0 = np.asarray(results[0][2])
     ctx.sample = {"op": op, "chunks": case["chunks"], "axis": case.get("axis"), "split_every": case.get("ses"),
@@ -669,10 +732,13 @@ def _tol_args(op, case, nred, scale, e):
         if ein > eout > 0:
             factor *= ein / eout
         return {"n": nred, "scale": (2 * scale) ** max(case.get("order", 2), 1), "factor": factor}
-    if family(op) == "med":
-        return {"n": 2, "scale": scale}
-    if family(op) == "quant":
-        return {"n": 4, "scale": scale}
+    if family(op) in ("med", "quant"):
+        # NumPy forms b - a in the input precision even when the result is float64
+        factor = 8.0
+        ein, eout = _eps(case["dtype"]), _eps(e.dtype)
+        if ein > eout > 0:
+            factor *= ein / eout
+        return {"n": 2 if family(op) == "med" else 4, "scale": scale, "factor": factor}
     return {"n": nred, "scale": scale}
 
 
@@ -722,7 +788,12 @@ def _check_arg(case, ctx, op, x, e, rv, axis, kd, extreme):
         return ("shape", "shape %s vs expected %s" % (rv.shape, e.shape))
     if rv.dtype != e.dtype:
         return ("dtype", "dtype %s vs expected %s" % (rv.dtype, e.dtype))
-    ctx.count("arg_extreme_checked")
+    ctx.count("arg_compared")
+    if np.array_equal(rv, e):
+        # equal to NumPy: nothing more is demanded (np.nanargmin([nan, inf]) itself returns the NaN position)
+        return None
+    # differs from NumPy: facet 1 "the index holds the extreme value", else facet 2 (NumPy's tie rule)
+    ctx.count("arg_differs_from_numpy")
     extreme = np.asarray(extreme)
     if axis is None:
         if rv.size != 1 or not (0 <= int(rv.reshape(-1)[0]) < x.size):
@@ -739,18 +810,12 @@ def _check_arg(case, ctx, op, x, e, rv, axis, kd, extreme):
     m = compare_arrays(got, extreme, exact=True)
     if m:
         return ("wrong-extreme", "value at the returned index is not the extreme: " + m[1])
-    ctx.count("arg_tiebreak_checked")
-    if not np.array_equal(rv, e):
-        f = [_axis_kind(axis)]
-        if x.ndim > 1:
-            f.append("ndim>1")
-            if axis is None and any(len(c) > 1 for c in case["chunks"][1:]):
-                f.append("non-leading-axis-split")
-        f.append("ties")
-        ctx.count("arg_ties_resolved_differently")
-        return ("tie-break-differs", "index %s, NumPy (first occurrence) %s; both hold the extreme value"
-                % (rv.tolist(), e.tolist()), "&".join(f))
-    return None
+    f = _arg_feat(case, x)
+    if x.ndim > 1 and axis is None and any(len(c) > 1 for c in case["chunks"][1:]):
+        f.append("non-leading-axis-split")
+    f.append("ties")
+    return ("tie-break-differs", "index %s, NumPy (first occurrence) %s; both hold the extreme value"
+            % (rv.tolist(), e.tolist()), "&".join(f))
 
 
 def _pair(op, fam, case, v1, v2, nred, scale):
